@@ -22,6 +22,7 @@ type ReplayFile struct {
 	Vectors  [][]NdVal      `json:"vectors"`
 	Expect   []string       `json:"expect,omitempty"` // what the engine predicted per vector
 	Note     string         `json:"note,omitempty"`
+	Race     bool           `json:"race,omitempty"` // run natively under the Go race detector
 }
 
 var scratchRoot string
@@ -79,8 +80,13 @@ func nativeReplay(rf *ReplayFile, timeout time.Duration) ([]string, string, erro
 
 	ctx, cancel := context.WithTimeout(context.Background(), timeout+60*time.Second)
 	defer cancel()
-	cmd := exec.CommandContext(ctx, "go", "test", "-overlay", ovFile, "-vet=off", "-count=1", "-run", "^TestVerifReplay$",
-		"-timeout", fmt.Sprintf("%ds", int(timeout.Seconds())), "-v", "./"+rf.Pkg)
+	args := []string{"test", "-overlay", ovFile, "-vet=off", "-count=1", "-run", "^TestVerifReplay$",
+		"-timeout", fmt.Sprintf("%ds", int(timeout.Seconds())), "-v"}
+	if rf.Race {
+		args = append(args, "-race")
+	}
+	args = append(args, "./"+rf.Pkg)
+	cmd := exec.CommandContext(ctx, "go", args...)
 	cmd.Dir = repoDir
 	cmd.Env = append(os.Environ(), "GOFLAGS=-mod=mod", "GOPROXY=off", "VERIF_REPLAY="+rfile)
 	out, _ := cmd.CombinedOutput()
@@ -97,6 +103,14 @@ func nativeReplay(rf *ReplayFile, timeout time.Duration) ([]string, string, erro
 			k, _ := strconv.Atoi(m[1])
 			if k < len(res) {
 				res[k] = m[2]
+			}
+		}
+	}
+	if rf.Race && strings.Contains(text, "WARNING: DATA RACE") {
+		// the race detector reports per process, not per vector
+		for k := range res {
+			if res[k] == "clean" || res[k] == "" {
+				res[k] = "fatal DATA RACE reported by the Go race detector"
 			}
 		}
 	}
